@@ -103,7 +103,8 @@ struct sthdr {
 	uint8_t flags;
 	uint8_t taint;           /* refusal class already flagged on this path */
 	uint8_t taint_frame;
-	uint8_t pad[2];
+	uint8_t shorts_used;     /* only tracked when cfg->path_short_budget > 0 */
+	uint8_t pad[1];
 };
 
 struct st {
@@ -220,7 +221,7 @@ struct ctx {
 	uint32_t flen[C10_MAXF];
 	size_t max_offer, call_limit;
 	int ncalls, nreads, saw_eagain, saw_error, dead;
-	int shorts, eagains, errors;
+	int shorts, eagains, errors, pre_shorts;
 	int error_cb_calls, loop_add, loop_remove, close_calls, read_cb_calls;
 	int nans;
 	int32_t ans[MAXCALLS];
@@ -242,7 +243,7 @@ struct ctx {
 	uint8_t *klog;
 	size_t klog_n, klog_cap;
 	FILE *out;
-	int log_drain, parse_bad;
+	int log_drain, parse_bad, lenient;
 	uint8_t *canon_buf;
 	struct st *post_buf;
 
@@ -496,11 +497,14 @@ ssize_t V(c10_writev)(int fd, const struct iovec *iov, int iovcnt)
 		}
 	} else if (c->dead) {
 		a = ANS_ERR;
+	} else if (c->parse_bad) {
+		a = (int32_t)total;
 	} else {
 		sig = fnv(&c->bs->to_write, sizeof(c->bs->to_write), sig);
 		sig = fnv(c->bs->write_buffer, BUFSZ, sig);
 		sig = fnv(&c->ps, sizeof(c->ps), sig);
-		int restricted = c->cfg->short_budget > 0 && c->shorts >= c->cfg->short_budget;
+		int restricted = (c->cfg->short_budget > 0 && c->shorts >= c->cfg->short_budget) ||
+		                 (c->cfg->path_short_budget > 0 && c->pre_shorts + c->shorts >= c->cfg->path_short_budget);
 		sig = fnv(&restricted, sizeof(restricted), sig);
 		if (restricted) {
 			int pick = choose(c, 3, sig);
@@ -565,7 +569,7 @@ ssize_t V(c10_writev)(int fd, const struct iovec *iov, int iovcnt)
 					add_event(c, sv, key, "byte 0x%02x at call #%d, %u byte(s) into frame #%d", b, c->ncalls,
 					          (unsigned)p->off, p->cur + 1);
 				}
-				if (c->mode == M_REPLAY) { /* keep going so that the transcript shows the whole stream */
+				if (c->mode != M_DRAIN) { /* finish the operation (all further writes accepted) so the record is complete */
 					c->parse_bad = 1;
 					continue;
 				}
@@ -920,6 +924,9 @@ static int run_exec(struct ctx *c, const struct st *pre, int op, int shape, int 
 	c->ncalls = c->nreads = c->saw_eagain = c->saw_error = 0;
 	c->dead = (pre->h.flags & F_DEAD) != 0;
 	c->shorts = c->eagains = c->errors = 0;
+	c->pre_shorts = pre->h.shorts_used;
+	if (mode != M_REPLAY)
+		c->parse_bad = 0;
 	c->error_cb_calls = c->read_cb_calls = 0;
 	c->nans = 0;
 	c->nev = 0;
@@ -1092,10 +1099,14 @@ static int finish_exec(struct ctx *c, uint32_t pre_idx, int pre_depth, const str
 		report(c, key, 0, pre_idx, trans, depth, weight, "to_write = %zu > %d after %s", c->bs->to_write, (int)BUFSZ, opname);
 		broken = 1;
 	}
-	if (broken && !(c->parse_bad && rc == RUN_DONE))
+	if (broken && !(c->lenient && c->parse_bad && rc == RUN_DONE))
 		return 0;
 
 	*post = *pre;
+	if (cfg->path_short_budget > 0) {
+		int su = pre->h.shorts_used + c->shorts;
+		post->h.shorts_used = (uint8_t)(su > 255 ? 255 : su);
+	}
 	post->h.ps = c->ps;
 	post->h.to_write = (uint32_t)c->bs->to_write;
 	memcpy(post->buf, c->bs->write_buffer, c->bs->to_write);
@@ -1168,10 +1179,12 @@ static int finish_exec(struct ctx *c, uint32_t pre_idx, int pre_depth, const str
 			snprintf(key, sizeof(key), "drain/%s/after-%s", sv_name[dsv], opname);
 			report(c, key, 0, pre_idx, trans, depth, weight,
 			       "flushing the write buffer left by this %s (kernel accepts everything) produced: %s", opname, sv_name[dsv]);
+			return 0; /* definite violation: do not cascade */
 		} else if (!ok) {
 			snprintf(key, sizeof(key), "drain/buffer-not-emptied/after-%s", opname);
 			report(c, key, 0, pre_idx, trans, depth, weight,
 			       "write buffer not empty after writability callbacks with a kernel that accepts everything");
+			return 0;
 		} else {
 			if (op == OP_W && ret != 0) {
 				uint32_t len = c->flen[n];
@@ -1701,6 +1714,7 @@ int V(c10_replay)(const char *text, FILE *out, char keys[][128], int maxkeys)
 	ctx_init(c, NULL, &cfg);
 	tls_ctx = c;
 	c->out = out;
+	c->lenient = 1;
 	struct st *cur = calloc(1, sizeof(*cur)), *post = calloc(1, sizeof(*post));
 	cur->h.ps.cur = -1;
 	uint8_t trans[4 + 2 * MAXCALLS];
